@@ -846,7 +846,12 @@ class Footnote(BlockToken):
     def read(cls, lines):
         line_buffer = []
         next_line = lines.peek()
+        breaking_tokens = [t for t in _token_types if hasattr(t, 'check_interrupts_paragraph')]
         while next_line is not None and next_line.strip() != '':
+            # the lines of a definition are lines of a paragraph: what ends a paragraph ends them
+            if line_buffer and (any(token_type.check_interrupts_paragraph(lines) for token_type in breaking_tokens)
+                                or (Paragraph.parse_setext and Paragraph.is_setext_heading(next_line))):
+                break
             line_buffer.append(next(lines))
             next_line = lines.peek()
         string = ''.join(line_buffer)
